@@ -5,6 +5,7 @@ package main
 // the known-findings file, replay counterexamples, write evidence.
 
 import (
+	"crypto/md5"
 	"encoding/json"
 	"flag"
 	"fmt"
@@ -326,7 +327,37 @@ func runCheck(prop, tier string, seed int) int {
 		fmt.Printf("VIOLATION property=%s replay=%s%s\n", prop, path, suffix)
 		fmt.Printf("  obligation %s (%s) %s: %s\n  %s\n", o.Name, o.Res.Answer, o.Src, o.Text, detail)
 	}
-	stats := map[string]any{"slow_obligations_left_to_thorough_tier": skippedSlow, "by_solver": bySolver, "solver_time_s": round2(solverSecs), "max_obligation_s": round2(maxSecs), "known_findings": knownHit}
+	// thorough tier: the replay drivers of the property's functions as bounded sweeps of the real code against
+	// their independent reference models (bounded: stated in each driver; never counted as proof)
+	var sweeps []map[string]any
+	if tier == "thorough" && os.Getenv("GOVC_NOSWEEP") == "" && os.Getenv("GOVC_REPO") == "" {
+		seen := map[string]bool{}
+		for _, k := range keys {
+			drv := replayDriverFor(k)
+			if drv == "" {
+				continue
+			}
+			data, _ := os.ReadFile(drv)
+			sum := fmt.Sprintf("%x", md5.Sum(data))
+			if seen[sum] {
+				continue
+			}
+			seen[sum] = true
+			path := filepath.Join(outDir, "sweep-"+sanitize(k)+".replay.json")
+			rep := map[string]any{"property": prop, "obligation": "bounded sweep of " + k, "function": k, "kind": "sweep", "inputs": map[string]any{}}
+			ok, out := runReplayDriverOnce(drv, path, rep)
+			rep["replay_output"] = out
+			rep["reproduced"] = ok
+			d2, _ := json.MarshalIndent(rep, "", " ")
+			writeFileMk(path, string(d2))
+			sweeps = append(sweeps, map[string]any{"driver": filepath.Base(drv), "function": k, "result": lastLine(out), "deviation_found": ok})
+			if ok {
+				violations++
+				fmt.Printf("VIOLATION property=%s replay=%s\n  bounded sweep of %s on the real code: %s\n", prop, path, k, lastLine(out))
+			}
+		}
+	}
+	stats := map[string]any{"bounded_sweeps": sweeps, "slow_obligations_left_to_thorough_tier": skippedSlow, "by_solver": bySolver, "solver_time_s": round2(solverSecs), "max_obligation_s": round2(maxSecs), "known_findings": knownHit}
 	if tier == "thorough" && violations == 0 && os.Getenv("GOVC_NOSELFTEST") == "" && os.Getenv("GOVC_REPO") == "" {
 		stats["selftest"] = runSelftest(prop)
 	}
